@@ -46,6 +46,7 @@ type Bounds struct {
 	AssumeNonNeg map[ssa.Value]bool
 	depth     int
 	ifs       []*ssa.If
+	subs      map[*ssa.Function]*Bounds
 }
 
 func NewBounds(p *Prog, fn *ssa.Function, sums map[string]Summary) *Bounds {
@@ -310,6 +311,43 @@ func (b *Bounds) LenAtLeast(x ssa.Value, at ssa.Instruction, t Term) bool {
 			}
 		}
 		if b.fieldSummary(stripWiden(t.V), x, at) {
+			return true
+		}
+		// the count comes from a helper analysed as part of this function: infer "count ≤ len(argument)" from the helper's body
+		if ex, ok := stripWiden(t.V).(*ssa.Extract); ok {
+			if c, ok := ex.Tuple.(*ssa.Call); ok {
+				if h := AbsorbedCallee(c); h != nil && b.onNilErrEdge(c, at) {
+					for j := range h.Params {
+						if j >= len(c.Call.Args) || !isByteSlice(h.Params[j].Type()) || !b.lenLE(c.Call.Args[j], x) {
+							continue
+						}
+						if b.inferredSummary(h, ex.Index, j) {
+							return true
+						}
+						// or: at every return of the helper that is consistent with what the caller tested since (nil error,
+						// `complete` flag, …) the helper itself established len(parameter) ≥ returned count
+						if rs := b.consistentReturns(h, c, at); len(rs) > 0 {
+							hb := b.sub(h)
+							all := true
+							for _, r := range rs {
+								rt := termOf(RetVal(r, ex.Index))
+								if ex.Index >= len(r.Results) || !hb.LenAtLeast(h.Params[j], r, Term{rt.V, rt.K + t.K}) {
+									all = false
+									break
+								}
+							}
+							if all {
+								return true
+							}
+						}
+					}
+				}
+			}
+		}
+	}
+	// x is a parameter of a helper analysed as part of its caller(s) and the bound is a constant: every call site must establish it
+	if p, ok := x.(*ssa.Parameter); ok && p.Parent() == b.Fn && t.V == nil {
+		if b.fromCallSites(p, func(cb *Bounds, arg ssa.Value, site ssa.Instruction) bool { return cb.LenAtLeast(arg, site, t) }) {
 			return true
 		}
 	}
@@ -607,6 +645,9 @@ func (b *Bounds) ValueAtLeast(v ssa.Value, k int64, at ssa.Instruction) bool {
 			if k <= 0 && b.ValueAtLeast(x.X, 0, at) && b.ValueAtLeast(x.Y, 0, at) {
 				return true
 			}
+			if k > 0 && ((b.ValueAtLeast(x.X, k, at) && b.ValueAtLeast(x.Y, 0, at)) || (b.ValueAtLeast(x.X, 0, at) && b.ValueAtLeast(x.Y, k, at))) {
+				return true
+			}
 		case token.SUB:
 			if c, ok := ConstInt(x.Y); ok {
 				return b.ValueAtLeast(x.X, k+c, at)
@@ -645,6 +686,22 @@ func (b *Bounds) ValueAtLeast(v ssa.Value, k int64, at ssa.Instruction) bool {
 		return len(x.Edges) > 0
 	case *ssa.Extract:
 		if c, ok := x.Tuple.(*ssa.Call); ok {
+			// a result of a helper analysed as part of this function: decided at the helper's own nil-error returns
+			if h := AbsorbedCallee(c); h != nil && b.onNilErrEdge(c, at) {
+				if rs := nilErrReturns(h); len(rs) > 0 {
+					hb := b.sub(h)
+					all := true
+					for _, r := range rs {
+						if x.Index >= len(r.Results) || !hb.ValueAtLeast(RetVal(r, x.Index), k, r) {
+							all = false
+							break
+						}
+					}
+					if all {
+						return true
+					}
+				}
+			}
 			if s, ok := b.Summaries[CalleeName(c)]; ok && s.Ret == x.Index && k <= 0 && b.onNilErrEdge(c, at) {
 				return true
 			}
@@ -654,6 +711,12 @@ func (b *Bounds) ValueAtLeast(v ssa.Value, k int64, at ssa.Instruction) bool {
 		}
 	case *ssa.Call:
 		if s, ok := b.Summaries[CalleeName(x)]; ok && s.Ret == 0 && k <= 0 {
+			return true
+		}
+	}
+	// a parameter of a helper analysed as part of its caller(s): what every call site establishes for the argument
+	if p, ok := v.(*ssa.Parameter); ok && p.Parent() == b.Fn {
+		if b.fromCallSites(p, func(cb *Bounds, arg ssa.Value, site ssa.Instruction) bool { return cb.ValueAtLeast(arg, k, site) }) {
 			return true
 		}
 	}
@@ -990,4 +1053,136 @@ func definedBefore(x ssa.Value, phi *ssa.Phi) bool {
 		}
 	}
 	return true
+}
+
+func isByteSlice(t types.Type) bool {
+	sl, ok := t.Underlying().(*types.Slice)
+	if !ok {
+		return false
+	}
+	bt, ok := sl.Elem().Underlying().(*types.Basic)
+	return ok && bt.Kind() == types.Uint8
+}
+
+// nilErrReturns: the returns of h that are not provably error returns (all returns when h has no error result).
+func nilErrReturns(h *ssa.Function) []*ssa.Return {
+	var out []*ssa.Return
+	for _, r := range ReturnsOf(h) {
+		if len(r.Results) > 0 && IsErrorType(r.Results[len(r.Results)-1].Type()) && ReturnsNonNilError(r) {
+			continue
+		}
+		out = append(out, r)
+	}
+	return out
+}
+
+// sub: the bounds analysis of an absorbed helper, sharing the summaries.
+func (b *Bounds) sub(h *ssa.Function) *Bounds {
+	if b.subs == nil {
+		b.subs = map[*ssa.Function]*Bounds{}
+	}
+	if s, ok := b.subs[h]; ok {
+		return s
+	}
+	s := NewBounds(b.P, h, b.Summaries)
+	s.depth = b.depth
+	b.subs[h] = s
+	return s
+}
+
+var inferredSums = map[string]bool{}
+
+// inferredSummary: "on every nil-error return, result ret of h is within [0, len(parameter param)]", decided by the lock-step
+// analysis of h's own body (nothing is assumed about h).
+func (b *Bounds) inferredSummary(h *ssa.Function, ret, param int) bool {
+	key := fmt.Sprintf("%p/%d/%d", h, ret, param)
+	if v, ok := inferredSums[key]; ok {
+		return v
+	}
+	inferredSums[key] = false // recursion guard
+	res := LockStep(b.P, LockStepSpec{Fn: h, CursorParam: param, RetIndex: ret}, b.Summaries)
+	ok, n := true, 0
+	for _, x := range res {
+		if x.Kind == "return" {
+			n++
+		}
+		if !x.OK {
+			ok = false
+		}
+	}
+	inferredSums[key] = ok && n > 0
+	return ok && n > 0
+}
+
+// fromCallSites: a fact about parameter p of an absorbed helper holds when it holds for the argument at every call site
+// (each decided in the caller, at the call).
+func (b *Bounds) fromCallSites(p *ssa.Parameter, holds func(cb *Bounds, arg ssa.Value, site ssa.Instruction) bool) bool {
+	if b.depth > 8 {
+		return false
+	}
+	sites := SitesOf(b.Fn)
+	if len(sites) == 0 {
+		return false
+	}
+	idx := -1
+	for k, q := range b.Fn.Params {
+		if q == p {
+			idx = k
+		}
+	}
+	if idx < 0 {
+		return false
+	}
+	for _, s := range sites {
+		if s.Common().IsInvoke() || idx >= len(s.Common().Args) {
+			return false
+		}
+		cb := NewBounds(b.P, s.Parent(), b.Summaries)
+		cb.depth = b.depth + 1
+		if !holds(cb, s.Common().Args[idx], s.(ssa.Instruction)) {
+			return false
+		}
+	}
+	return true
+}
+
+// consistentReturns: the nil-error returns of helper h (called at c) whose constant boolean results agree with the tests of
+// those results that dominate `at` in the caller.
+func (b *Bounds) consistentReturns(h *ssa.Function, c *ssa.Call, at ssa.Instruction) []*ssa.Return {
+	type need struct {
+		idx int
+		val bool
+	}
+	var needs []need
+	for _, i := range b.ifs {
+		cond, neg := StripNot(i.Cond)
+		ex, ok := cond.(*ssa.Extract)
+		if !ok || ex.Tuple != ssa.Value(c) {
+			continue
+		}
+		if bt, isB := ex.Type().Underlying().(*types.Basic); !isB || bt.Kind() != types.Bool {
+			continue
+		}
+		switch {
+		case OnlyViaEdge(i, true, at):
+			needs = append(needs, need{ex.Index, !neg})
+		case OnlyViaEdge(i, false, at):
+			needs = append(needs, need{ex.Index, neg})
+		}
+	}
+	var out []*ssa.Return
+	for _, r := range nilErrReturns(h) {
+		ok := true
+		for _, n := range needs {
+			if n.idx < len(r.Results) {
+				if v, isC := ConstBool(RetVal(r, n.idx)); isC && v != n.val {
+					ok = false
+				}
+			}
+		}
+		if ok {
+			out = append(out, r)
+		}
+	}
+	return out
 }
